@@ -263,12 +263,11 @@ impl PackageSpecifiers {
     nv: &PackageNv,
     dep: JsrDepPackageReq,
   ) {
-    self
-      .packages
-      .get_mut(nv)
-      .unwrap()
-      .found_dependencies
-      .insert(dep);
+    // the package may be unknown when a loader answers a request for a
+    // non-registry specifier with a final specifier inside the registry
+    if let Some(info) = self.packages.get_mut(nv) {
+      info.found_dependencies.insert(dep);
+    }
   }
 
   pub(crate) fn add_export(
@@ -276,12 +275,9 @@ impl PackageSpecifiers {
     nv: &PackageNv,
     export: (String, String),
   ) {
-    self
-      .packages
-      .get_mut(nv)
-      .unwrap()
-      .exports
-      .insert(export.0, export.1);
+    if let Some(info) = self.packages.get_mut(nv) {
+      info.exports.insert(export.0, export.1);
+    }
   }
 
   pub(crate) fn add_top_level_package(&mut self, nv: PackageNv) {
